@@ -1715,6 +1715,10 @@ class PSBTOut:
                     )
                 s256 = self.redeem_script.commands[1]
             else:
+                if not script_pubkey.is_p2wsh():
+                    raise ValueError(
+                        "WitnessScript provided for non-p2wsh ScriptPubKey"
+                    )
                 s256 = script_pubkey.commands[1]
             if self.witness_script.sha256() != s256:
                 raise ValueError(
